@@ -455,7 +455,9 @@ def execute(spec):
                             c2["particle"]["$include"] = "inc_override"
                             try:
                                 o_plain = observe(build(plain))
-                                cfgv = build(c2, {"inc_override": {rn: inc_def}})
+                                shared = {"inc_override": {rn: inc_def}}  # ONE table object for all loads below
+                                shared_before = copy.deepcopy(shared)
+                                cfgv = build(c2, shared)
                                 o_var = observe(cfgv)
                             except Exception as e:
                                 import traceback
@@ -476,6 +478,19 @@ def execute(spec):
                                     pv = {kk: float(vv) for kk, vv in cfgv.get_params().items()}
                                     if pn in pv and abs(pv[pn] - newv) > 1e-12:
                                         log.fail("variant-equivalent", "variant|include_override|value", "local override %s=%r on top of an $include is ignored: the model holds %r" % (pn, newv, pv[pn]), step=i)
+                                        raise Failure()
+                                # the shared table belongs to the caller: a load does not edit it, and the next
+                                # card that includes the same table (without the override) is the plain card again
+                                if shared != shared_before:
+                                    log.fail("same-card-same-model", "shared-include-table|edited-by-a-load", "loading a card with a local override wrote the override into the caller's share_dict: %r -> %r" % (shared_before["inc_override"][rn], shared["inc_override"][rn]), step=i)
+                                    raise Failure()
+                                c3 = copy.deepcopy(card)
+                                del c3["particle"][rn]
+                                c3["particle"]["$include"] = "inc_override"
+                                o3 = observe(build(c3, shared))
+                                for fld in ("canon", "qn", "ls", "trainable", "fixed"):
+                                    if o3[fld] != base_obs[fld]:
+                                        log.fail("same-card-same-model", "shared-include-table|later-load-differs|%s" % fld, "a card including the shared table AFTER another card had overridden %s.%s locally does not give the plain model: %s differs" % (rn, field, fld), step=i)
                                         raise Failure()
                                 log.count("probe.include_override_checked")
                 elif k in ("foreign", "other"):
